@@ -948,19 +948,23 @@ def retained_core(f1, f2):
         [S1, K, ["cat", "tt"], S2],                       # t2 = concatenate([t1, t1]); t2.f2 = w
         [R1, ["get", f2], K, R2],                         # f2 of t1 was parsed (cached) before it is replaced in t2
         [R1, K, R1b],                                     # the same field again
+        [K, ["idx", "m_alt"], S2],                        # the table as read, retained: t2 = t[mask]; t2.f2 = w
+        [K, ["cat", "tu"], S2],                           # t2 = concatenate([t, u]); t2.f2 = w
     ]
 
 
-def retained_full(f1, f2):
+def retained_full(f1, f2, small=False):
     """{ways to make t1} x {keep} x {ways to derive from t1 and go on}"""
     R1, R2, R1b = ["replace", f1, "fresh"], ["replace", f2, "fresh2"], ["replace", f1, "fresh2"]
     S1, S2 = ["set", f1, "fresh"], ["set", f2, "fresh2"]
     S1b, S2a = ["set", f1, "fresh2"], ["set", f2, "fresh"]
-    makes = [[], [R1], [S1], [["get", f2], R1], [["get", f1], S1], [R1, ["get", f2]], [["tolist"], R1], [R1, ["write"]]]
+    makes = [[], [R1], [S1], [R1, ["get", f2]]]
+    if not small:
+        makes += [[["get", f2], R1], [["get", f1], S1], [["tolist"], R1], [R1, ["write"]]]
     derives = [
         [R2], [R1b], [R2, S1b], [R2, K, R1b], [R2, ["swapk"], S2a], [R2, ["swapk"], R1b],
         [["idx", "s_tail"]], [["idx", "m_alt"]], [["idx", "i_rev"]], [["idx", "s_tail"], S2], [["idx", "s_tail"], ["write"]],
-        [["idx", "s_all"], ["swapk"], S2], [["idx", "m_all"], S1b],
+        [["idx", "s_all"], S2], [["idx", "s_all"], ["swapk"], S2], [["idx", "m_all"], S1b],
         [["cat", "tt"]], [["cat", "tt"], S2], [["cat", "tt"], ["swapk"], S2],
     ]
     for m in makes:
@@ -979,16 +983,32 @@ def retained_chain(f1, f2, f3):
     ]
 
 
+def field_pairs(fields, which):
+    """which = 'rep': the representative pair (two fields of different kinds where there are);
+    'kinds': every ordered pair of the representatives of the kinds (int, seqid, str, float);
+    'all': every ordered pair of distinct replaceable fields;
+    'auto': 'all' if that is at most 20 pairs, else 'kinds'"""
+    r = replaceable(fields)
+    if len(r) < 2:
+        return []
+    if which == "rep":
+        return [(r[0], r[1])]
+    nk = max(2, len(set(k for _, k in fields if k != "other")))
+    if which == "auto":
+        which = "all" if len(r) * (len(r) - 1) <= 20 else "kinds"
+    return list(itertools.permutations(r if which == "all" else r[:nk], 2))
+
+
 def retained_programs(fields, family, which):
-    """family core / full: which = 'rep' (the representative pair: two fields of different kinds where there are)
-    or 'all' (every ordered pair of distinct replaceable fields); family chain: the representative triple or every
-    ordered triple (at most 24, else the rotations of the representative one)"""
+    """family core / full / small (full with fewer ways to make t1) over field_pairs(which); family chain: the
+    representative triple ('rep') or every ordered triple (at most 24, else the rotations of the representative
+    one and its reverse)"""
     r = replaceable(fields)
     if family == "chain":
         if len(r) < 3:
             return
         triples = [tuple(r[:3])]
-        if which == "all":
+        if which != "rep":
             triples = list(itertools.permutations(r, 3))
             if len(triples) > 24:
                 triples = [tuple(r[:3]), (r[1], r[2], r[0]), (r[2], r[0], r[1]), (r[2], r[1], r[0])]
@@ -996,21 +1016,19 @@ def retained_programs(fields, family, which):
             for p in retained_chain(*tr):
                 yield p
         return
-    if len(r) < 2:
-        return
-    pairs = [(r[0], r[1])] if which == "rep" else list(itertools.permutations(r, 2))
-    for f1, f2 in pairs:
-        for p in (retained_core(f1, f2) if family == "core" else retained_full(f1, f2)):
+    for f1, f2 in field_pairs(fields, which):
+        for p in (retained_core(f1, f2) if family == "core" else retained_full(f1, f2, small=(family == "small"))):
             yield p
 
 
 ALLPAIRS_QUICK = ("bed", "bdg", "fastq", "sizes")
-ALLPAIRS_FULL = ("bed", "bdg", "fastq", "fasta2", "sizes", "gfa", "csv", "bam")
-FULL_QUICK = ("bed", "fastq", "sam", "vcf0", "bam", "csv")
+SMALL_QUICK = ("bed", "fastq", "sam", "bam")
+ALLPAIRS_FULL = ("bed", "fastq", "fasta2", "sizes", "gfa", "bdg", "bam", "csv")
+BIG = ("sam", "vcf0")    # 132 and 56 ordered pairs
 
 
 def plan_retained(tier):
-    """-> (tasks in order of priority, samples, seconds); task = (family, which, fmt, mode)"""
+    """-> (tasks in order of priority, samples, seconds); task = (family, which fields, fmt, mode)"""
     cs = {fmt: ["chunk:%d" % c for c in chunk_sizes(fmt)] for fmt in ALL_FORMATS}
     t = []
     if tier == "quick":
@@ -1019,17 +1037,20 @@ def plan_retained(tier):
         t += [("core", "all", f, cs[f][0]) for f in ("bed", "fastq")]
         t += [("core", "rep", f, cs[f][0]) for f in MAIN]
         t += [("chain", "rep", f, "whole") for f in ALL_FORMATS]
-        t += [("full", "rep", f, "whole") for f in FULL_QUICK]
+        t += [("small", "rep", f, "whole") for f in SMALL_QUICK]
         t += [("chain", "all", "bed", "whole")]
-        return t, [(f, "whole", 2, 6) for f in ALL_FORMATS], 13
-    t += [("core", "all", f, "whole") for f in ALL_FORMATS]
-    t += [("core", "all", f, cs[f][0]) for f in MAIN]
-    t += [("core", "rep", f, m) for f in ALL_FORMATS for m in cs[f]]
-    t += [("chain", "all", f, m) for f in ALL_FORMATS for m in ("whole", cs[f][0])]
-    t += [("full", "rep", f, m) for f in ALL_FORMATS for m in ("whole", cs[f][0])]
+        return t, [], 14
+    auto = lambda f: "kinds" if f in BIG else "auto"
+    t += [("core", auto(f), f, "whole") for f in ALL_FORMATS]
+    t += [("core", auto(f), f, cs[f][0]) for f in ALL_FORMATS]
+    t += [("core", "rep", f, cs[f][1]) for f in ALL_FORMATS]
+    t += [("chain", "all", f, "whole") for f in ALL_FORMATS]
+    t += [("chain", "rep", f, cs[f][0]) for f in ALL_FORMATS]
+    t += [("full", "rep", f, "whole") for f in ALL_FORMATS]
+    t += [("full", "rep", f, cs[f][0]) for f in MAIN + ("bam",)]
     t += [("full", "all", f, "whole") for f in ALLPAIRS_FULL]
-    t += [("full", "all", f, cs[f][0]) for f in ("bed", "fastq")]
-    return t, [(f, m, 15, 7) for f in ALL_FORMATS for m in ["whole"] + cs[f][:1]], 170
+    t += [("core", "all", f, "whole") for f in BIG]
+    return t, [(f, m, 10, 6) for f in ALL_FORMATS for m in ["whole"] + cs[f][:1]], 190
 
 
 def sample_retained(rng, wide, maxlen):
@@ -1190,7 +1211,7 @@ def run_retained(col, r, tier):
         n0 = col.evaluations
         for prog in retained_programs(fields, family, which):
             r.evaluate(fmt, mode, [list(o) for o in prog], contract)
-            if time.time() - t0 > seconds:
+            if time.time() - t0 > (0.9 if samples else 1.0) * seconds:   # the sampled part always runs
                 stop = True
                 col.exhaustive = False
                 break
@@ -1199,7 +1220,8 @@ def run_retained(col, r, tier):
     import random
     rng = random.Random("C05-retained-%s" % col.seed)   # its own stream: the linear samples of a seed stay the same
     for fmt, mode, n, maxlen in samples:
-        if stop or time.time() - t0 > seconds:
+        if time.time() - t0 > seconds:
+            col.exhaustive = False
             break
         try:
             wide = r.ops(fmt, mode, "wide")
@@ -1210,6 +1232,11 @@ def run_retained(col, r, tier):
             r.evaluate(fmt, mode, sample_retained(rng, wide, maxlen), "lockstep-retained-sampled")
         info["sampled"].append({"fmt": fmt, "mode": mode, "n": col.evaluations - n0, "len": "5..%d" % (maxlen + 2)})
     info["wall_s"] = round(time.time() - t0, 1)
+    info["programs"] = ("core: 10 programs per ordered field pair (f1, f2); full: 8 ways to make t1 (as read, replace f1, "
+                        "t.f1 = v, with f1 / f2 parsed before or after, after tolist, after write) x keep x 17 "
+                        "derivations (replace f2 / f1 again, t1[slice|mask|int list], concatenate, write of a slice, "
+                        "then assignments to the new or, after swapk, to the old table); small: the first 4 ways; "
+                        "chain: 4 programs per ordered field triple, every link retained")
     return info
 
 
@@ -1222,7 +1249,7 @@ def run(tier="quick", seed=0):
                     "final full observation (len, every field, tolist, written bytes) compared; per format x {whole read, "
                     "chunked read}; longer programs sampled with the seed.  distinct = distinct (format, read mode, "
                     "program); non-trivial = program of length >= 1",
-                    budget_s=(55 if tier == "quick" else 570))
+                    budget_s=(62 if tier == "quick" else 585))
     import logging
     logging.getLogger("bionumpy").setLevel(logging.ERROR)   # the library logs a warning per read/write
     tasks, samples = plan(tier)
